@@ -85,7 +85,7 @@ pub fn run(ctx: &Ctx) -> Report {
         "state:king-count", "state:kings-adjacent", "state:more-than-16-men", "state:more-than-8-pawns", "state:pawn-on-back-rank", "state:side-not-to-move-in-check",
         "state:right-king-off-back-rank", "state:right-without-rook", "state:right-wrong-side-of-king", "state:ep-wrong-rank", "state:ep-without-pawn",
         "state:ep-passed-square-occupied", "state:ep-origin-occupied", "state:halfmove-clock-out-of-range", "state:fullmove-number-zero", "state:sound",
-        "edited-state-accepted", "mutated-text-accepted", "reached:ep-set", "reached:in-check", "reached:after-castling",
+        "edited-state-accepted", "mutated-text-accepted", "reached:ep-set", "reached:in-check", "reached:after-castling", "reached-any-origin:ep-set-in-check",
     ];
     // (a) builder
     rep.add(run_prop(ctx, "builder", ctx.tier.scale(300_000, 25), arb_edited_state, |es: &EditedState, st: &mut Stats| {
@@ -124,11 +124,21 @@ pub fn run(ctx: &Ctx) -> Report {
     rep.add(positions(ctx, "reached", ctx.tier.scale(60_000, 25), (6, 2, 2), 80, |v, st| {
         st.eval(1);
         check_sound(v.board, &format!("board reached at {}", v.describe()), &[("start", v.origin.to_string()), ("ops", v.hist.join(","))])?;
+        // Every board reached from an accepted board must itself be re-enterable (C03/C07 state
+        // this for all accepted boards; here it is also the acceptance half for start positions).
+        if !v.hist.is_empty() && *v.step != Step::Clock {
+            st.class("reached-any-origin");
+            if v.pos.ep.is_some() && v.pos.in_check(v.pos.stm) {
+                st.class("reached-any-origin:ep-set-in-check");
+            }
+            check_accepted(v)?;
+        }
         let only_moves = v.hist.iter().all(|h| RMove::parse(h).is_some());
         if only_moves && (v.origin.contains("/pppppppp/8/8/8/8/PPPPPPPP/") || v.origin.starts_with("dfrc")) {
             st.class("reached-from-start-position");
             let in_check = v.pos.in_check(v.pos.stm);
             st.class_if(v.pos.ep.is_some(), "reached:ep-set");
+            ep_check_classes(v.pos, st);
             st.class_if(in_check, "reached:in-check");
             let castled = matches!(v.step, Step::Move(m) if {
                 // the king moved more than one file or onto the c/g file from a non-adjacent file: detect via history text
